@@ -31,6 +31,8 @@ MANIFEST = {
 RULE = ("a case = a machine variant (update rate 8/4/2 Hz, with or without a colour correction profile) and a history of "
         "4-14 commands (color with fade 0..16 ticks incl. non-dyadic, priorities 0..3 biased to ties, keys ''/a..d, "
         "explicit past start_time; remove with/without fade-out; clear; an add-then-remove probe; bursts inside one "
+        "callback; 40% of the cases start with two or three keys removed with overlapping fade-outs (inside each other's "
+        "window, same instant, exactly at a window's end) followed by a lower-priority fade; bursts inside one "
         "callback) at gaps of 0..20 ticks biased to land inside running fades, on fade ends and on fade-out ends, applied "
         "to 5 real lights (RGB/single x direct/software-faded, plus an RGBW light in one of the three white styles - oracle "
         "only), and in a second stream to RGB/single lights on a batched test platform (real PlatformBatchLightSystem, slow "
